@@ -18,8 +18,8 @@ var tableIDs = []string{"t1", "t2"}
 func tname(parent, id string) string { return parent + "/tables/" + id }
 
 var families = []string{"cf", "cf2", "x"}
-var keyUniverse = [][]byte{[]byte("a"), []byte("a\x00"), []byte("a\x00\x00"), []byte("ab"), []byte("b"), {0}, {0xff}, []byte("row-7"), {0xff, 0xff}, []byte("b\xff"), []byte("a\xff"), []byte("a\xffz"), []byte("c"), []byte("b\x00")}
-var qualifiers = [][]byte{{}, []byte("q"), []byte("q2"), {0, 0xff}, []byte("zz")}
+var keyUniverse = [][]byte{[]byte("a"), []byte("a\x00"), []byte("a\x00\x00"), []byte("ab"), []byte("b"), {0}, {0xff}, []byte("row-7"), {0xff, 0xff}, []byte("b\xff"), []byte("a\xff"), []byte("a\xffz"), []byte("c"), []byte("b\x00"), []byte("a\nb")}
+var qualifiers = [][]byte{{}, []byte("q"), []byte("q2"), {0, 0xff}, []byte("zz"), []byte("q\n"), []byte("2q")}
 var tsPool = []int64{0, 1000, 2000, 3000, 1000000, 9223372036854775000, -1, -1, 1, 999, -1000, -2, 9223372036854775807, 1500}
 var clocks = []int64{1000000000, 1234567, 5000, 4611686018427387904, 0, 2500, 1790000000000000}
 
@@ -29,7 +29,7 @@ func be64(v int64) []byte {
 	return b
 }
 
-var values = [][]byte{{}, []byte("v"), []byte("value-2"), be64(5), be64(-1), {0xff, 0, 1}, be64(9223372036854775807), []byte("1234567"), []byte("123456789")}
+var values = [][]byte{{}, []byte("v"), []byte("value-2"), be64(5), be64(-1), {0xff, 0, 1}, be64(9223372036854775807), []byte("1234567"), []byte("123456789"), []byte("line1\nline2"), []byte("\n")}
 
 type progGen struct {
 	rng   *rand.Rand
@@ -145,6 +145,9 @@ func (g *progGen) optRule() *GcRule {
 func (g *progGen) regex() *Regex {
 	if g.rng.Intn(14) == 0 {
 		return &Regex{Bad: true}
+	}
+	if g.rng.Intn(8) == 0 {
+		return &Regex{Re: &Re{Kind: "star", A: &Re{Kind: "any"}}} // the everyday ".*"
 	}
 	return &Regex{Re: g.re(3)}
 }
@@ -573,6 +576,66 @@ func genPrograms(prop, out, tier string, rng *rand.Rand) {
 		}
 		RunTasks(sink, dtasks, progNontrivial)
 	}
+	if prop == "C13" {
+		// directed: several rules in one request on columns whose (family, qualifier) pairs are easy to
+		// confuse: the family name of one is a prefix of the other's ("cf"+"2q" vs "cf2"+"q"), the same
+		// qualifier in two families, the empty qualifier, the same column twice
+		t := tname(parentA, "t1")
+		incr := func(f, q string, amt int64) Rule { return Rule{Kind: "incr", Fam: f, Q: []byte(q), Amt: amt} }
+		app := func(f, q, v string) Rule { return Rule{Kind: "append", Fam: f, Q: []byte(q), V: []byte(v)} }
+		setup := []Call{{Req: Req{Kind: "create", Parent: parentA, Tid: "t1", Fams: []FamDef{{Name: "cf"}, {Name: "cf2"}, {Name: "c"}}}, Now: 1000},
+			{Req: Req{Kind: "mutate", Table: t, Key: []byte("r1"), Muts: []Mutation{{Kind: "set", Fam: "cf", Q: []byte("2q"), Ts: 1000, V: be64(1)}, {Kind: "set", Fam: "cf2", Q: []byte("q"), Ts: 1000, V: be64(40)}, {Kind: "set", Fam: "c", Q: []byte("f2q"), Ts: 1000, V: be64(700)}, {Kind: "set", Fam: "cf", Q: []byte(""), Ts: 1000, V: []byte("e")}}}, Now: 1000}}
+		ruleSets := [][]Rule{
+			{incr("cf", "2q", 2), incr("cf2", "q", 5)},
+			{incr("cf2", "q", 5), incr("cf", "2q", 2), incr("c", "f2q", 1)},
+			{app("cf", "", "+"), app("cf2", "", "x"), incr("cf", "2q", 1), app("cf", "", "!")},
+			{incr("cf", "2q", 1), incr("cf", "2q", 1), incr("cf2", "q", -41)},
+			{app("cf", "q", "new"), incr("cf2", "2q", 7), incr("cf", "2q", 9223372036854775807)},
+		}
+		var dtasks []Task
+		for _, en := range engines() {
+			for _, rs := range ruleSets {
+				prog := append(append([]Call{}, setup...), Call{Req: Req{Kind: "rmw", Table: t, Key: []byte("r1"), Rules: rs}, Now: 2000}, Call{Req: Req{Kind: "read", Table: t}, Now: 3000},
+					Call{Req: Req{Kind: "rmw", Table: t, Key: []byte("r1"), Rules: rs}, Now: 2000}, Call{Req: Req{Kind: "read", Table: t}, Now: 3000})
+				dtasks = append(dtasks, Task{en, "confusable-columns", prog})
+			}
+		}
+		RunTasks(sink, dtasks, progNontrivial)
+	}
+	if prop == "C12" || prop == "C13" {
+		// the request is one atomic step: every interleaving (at the yield points before the table lock
+		// and between row fetch and write-back) of a CheckAndMutateRow (C12) / ReadModifyWriteRow (C13)
+		// with a second write to the same row, compared step by step with the interleaving model
+		own := 2
+		if prop == "C13" {
+			own = 3
+		}
+		final := []Call{{Req: Req{Kind: "read", Table: concTable}, Now: 9000000}}
+		var jobs []concJob
+		for _, en := range engines() {
+			for _, other := range []int{0, 2, 3} {
+				for _, pair := range [][2]int{{own, other}, {other, own}} {
+					threads := [][]Call{{c06Request(pair[0], []byte("r1"), 1)}, {c06Request(pair[1], []byte("r1"), 2)}}
+					for _, sch := range interleavings(c06Steps(pair[0]), c06Steps(pair[1])) {
+						jobs = append(jobs, concJob{en, smallSetup(), threads, sch, final, nil, fmt.Sprintf("atomic-step-%d-%d", pair[0], pair[1])})
+					}
+				}
+			}
+		}
+		results := make([]*ConcCase, len(jobs))
+		parallelN(16, len(jobs), func(i int) {
+			j := jobs[i]
+			results[i] = runConc(j.en, j.setup, j.threads, j.sched, j.final, j.bulk, j.tag)
+		})
+		for _, c := range results {
+			if c == nil {
+				sink.stats.Skipped++
+				continue
+			}
+			js, _ := json.Marshal(c)
+			sink.AddPreV("conc", "check_conc", "ccase", c.pseudo(), c.coq(), js, true)
+		}
+	}
 	if prop == "C14" || prop == "C17" {
 		// directed: things that are removed and come back under the same name (a family dropped and
 		// re-created, a table deleted and re-created, rows dropped and re-written) over several rows:
@@ -649,4 +712,27 @@ func genPrograms(prop, out, tier string, rng *rand.Rand) {
 	}
 	sink.perFile = 40
 	sink.Close(fmt.Sprintf("(C03/C17 additionally: the COMPLETE space of RowSets with at most two ranges plus at most one key, bounds from the 7-key adversarial universe, each bound unset/closed/open, limits {0,2} (thorough {0,1,2,3,7,8}), on a table holding all 7 keys, on all three engines: 50851 range sets x 8 keys x limits per engine, reported as blocks of 1600 range sets) random request programs (focus %s) of about %d requests over %d row keys (byte-prefixes of each other, 0x00/0xff), 3 families + 1 unknown, %d qualifiers incl. empty, boundary timestamps, %d clock values incl. non-millisecond and huge; MutateRow/MutateRows/CheckAndMutateRow/ReadModifyWriteRow/ReadRows with RowSets, filters to depth 3, limits/admin requests/forced GC passes, a full-table read after most writes; every program runs on the btree, in-memory leveldb and on-disk leveldb engines; distinct = distinct canonical (program, observation) text (identical observations on several engines count once); non-trivial = at least one successful write and one non-empty read", prop, length, len(keyUniverse), len(qualifiers), len(clocks)), exhaustive)
+}
+
+// c16RulePrograms: a family's rule is changed, cleared and restored between writes and forced passes
+func c16RulePrograms() [][]Call {
+	t := tname(parentA, "t1")
+	mv := func(n int) *GcRule { return &GcRule{Kind: "maxversions", N: int64(n)} }
+	w := func(ts int64, v string) Call {
+		return Call{Req: Req{Kind: "mutate", Table: t, Key: []byte("r1"), Muts: []Mutation{{Kind: "set", Fam: "cf", Q: []byte("q"), Ts: ts, V: []byte(v)}, {Kind: "set", Fam: "cf2", Q: []byte("q"), Ts: ts, V: []byte(v)}}}, Now: 5000}
+	}
+	gc := Call{Req: Req{Kind: "gc", Table: t}, Now: 9000000}
+	rd := Call{Req: Req{Kind: "read", Table: t}, Now: 9000000}
+	upd := func(rule *GcRule) Call {
+		return Call{Req: Req{Kind: "modify", Table: t, Mods: []FMod{{Kind: "update", ID: "cf", Rule: rule}}}, Now: 1000}
+	}
+	create := Call{Req: Req{Kind: "create", Parent: parentA, Tid: "t1", Fams: []FamDef{{Name: "cf", Rule: mv(1)}, {Name: "cf2", Rule: mv(2)}}}, Now: 1000}
+	progs := [][]Call{
+		{create, w(1000, "a"), w(2000, "b"), w(3000, "c"), upd(nil), gc, rd, {Req: Req{Kind: "get", Table: t}, Now: 1}},
+		{create, upd(nil), w(1000, "a"), w(2000, "b"), w(3000, "c"), gc, rd, upd(mv(2)), gc, rd, upd(nil), w(4000, "d"), w(5000, "e"), gc, rd},
+		{create, w(1000, "a"), w(2000, "b"), upd(mv(3)), w(3000, "c"), gc, rd, upd(mv(1)), gc, rd},
+		{create, w(1000, "a"), w(2000, "b"), {Req: Req{Kind: "modify", Table: t, Mods: []FMod{{Kind: "drop", ID: "cf"}, {Kind: "create", ID: "cf"}}}, Now: 1000}, w(3000, "c"), w(4000, "d"), gc, rd},
+		{create, w(1000, "a"), w(2000, "b"), {Req: Req{Kind: "modify", Table: t, Mods: []FMod{{Kind: "update", ID: "cf2"}}}, Now: 1000}, w(3000, "c"), gc, rd},
+	}
+	return progs
 }
